@@ -561,7 +561,7 @@ Lemma classify_ew : forall t c st t' c',
     step_type t st = Some t' /\ c' = c.
 Proof.
   intros t c st t' c' Hew H.
-  destruct st as [f|p|g|f| |f|p|f|p|f|n b|n b| |cb|cb|cb lf fo| | |k| |k rs rd];
+  destruct st as [f|p|g|f| |f|p|f|p|f|n b|n b| |cb|cb|cb lf fo| | |k| |k rs rd|sd h|sd q|prs dflt|f p];
     try discriminate Hew; cbn [classify_step step_type] in *;
     try (inversion H; subst; split; reflexivity);
     try (destruct (Nat.eqb t TKV); [inversion H; subst; split; reflexivity|discriminate H]);
@@ -589,7 +589,7 @@ Proof.
     apply nc_stateless.
     + constructor; [apply cop_ew; exact Hew|constructor].
     + cbn [tags_ok]. rewrite Hin, Nat.eqb_refl, Hout. reflexivity.
-  - destruct st as [f|p|g|f| |f|p|f|p|f|n b|n b| |cb|cb|cb lf fo| | |k| |k rs rd];
+  - destruct st as [f|p|g|f| |f|p|f|p|f|n b|n b| |cb|cb|cb lf fo| | |k| |k rs rd|sd h|sd q|prs dflt|f p];
       try discriminate Hew; cbn [classify_step] in H; try discriminate H.
     + (* SMapBatches with a non element-wise function *)
       destruct b; try discriminate Hew; discriminate H.
